@@ -33,6 +33,8 @@ typedef struct {
 } Opts;
 extern Opts g_opts;
 void parse_opts(int argc, char **argv);
+extern int g_prelude_used;        /* which prelude this process ran (0..2) */
+extern int g_prelude_crashed;     /* set by run_prelude when the sequence killed its probe process */
 void run_prelude(void);           /* library calls made before the enumeration starts (see prelude.c) */
 int tier_thorough(void);
 
